@@ -120,6 +120,7 @@ def handle : List String → Option String
       | "ws" => some (.wsShort s)
       | "wslong" => some (.wsLong s)
       | "rtl" => some (.rtlsdr (some s))
+      | "sero" => some .sero
       | _ => none
     some s!"ok {(serial a).toNat}"
   | _ => none
